@@ -26,8 +26,22 @@ META = {
     'design_ref': '3.5',
 }
 
+MUT = [('mut_last_task_count', 'MC_JobPlan_mut_last_task_count_q.cfg', 'Inv_C05_Multiset'),
+       ('mut_stats_ignore_unmapped', 'MC_JobPlan_mut_stats_ignore_unmapped_q.cfg', 'Inv_C05_Cover')]
 NEG = [('impl', 'MC_JobPlan_impl_q.cfg'), ('impl_big_after_smalls', 'MC_JobPlan_impl_big_after_smalls_q.cfg'),
        ('impl_lone_small', 'MC_JobPlan_impl_lone_small_q.cfg'), ('impl_star_in_loop', 'MC_JobPlan_impl_star_in_loop_q.cfg')]
+
+
+MUTATION_ONLY_ACTIONS = {'SortGiveUp', 'WSwallow'}      # enabled only under Mutation # "none" (negative controls)
+
+
+def _mc_design(c, module, cfg, **kw):
+    """Design run with coverage: every action must be taken, except the ones that only exist for the mutation controls."""
+    r = vlib.mc(module, cfg, expect='pass', actions_required=[], **kw)
+    zero = [a for a, n in r.get('coverage', {}).items() if n == 0 and a != 'Init' and a not in MUTATION_ONLY_ACTIONS]
+    if zero or not r.get('coverage'):
+        raise vlib.MachineryError('vacuity: actions never taken in %s/%s: %s' % (module, cfg, zero))
+    return c.add_mc(r, 'design')
 
 
 def key_fn(ev, clause):
@@ -37,7 +51,9 @@ def key_fn(ev, clause):
         if clause == 'Inv_C05_Cover_dropped':
             dropped = [c for c in ev['need'] if c not in flat]
             small = set(ev.get('small', []))
-            kinds = sorted(set('small_contig' if c in small else ('unplaced' if c == '*' else 'big_contig') for c in dropped))
+            um = set(ev.get('um_only', []))
+            kinds = sorted(set('unmapped_only_contig' if c in um else 'small_contig' if c in small else ('unplaced' if c == '*' else 'big_contig')
+                               for c in dropped))
             return '%s|contig_per_process_plan|%s' % (clause, '+'.join(kinds))
         if clause == 'Inv_C05_Cover_twice':
             twice = sorted(set(c for c in flat if flat.count(c) > 1))
@@ -70,22 +86,32 @@ def run(tier):
     q = tier == 'quick'
     for m in ('TagRecords', 'JobPlan', 'TagPipeline', 'Trace_JobPlan'):
         vlib.sany(m)
-    c.mc_pass('JobPlan', 'MC_JobPlan_design_%s.cfg' % ('q' if q else 't'), workers=8, timeout=1500)
-    c.mc_pass('TagPipeline', 'MC_TagPipeline_design_%s.cfg' % ('q' if q else 't'), workers=4 if q else 8, timeout=1500)
+    _mc_design(c, 'JobPlan', 'MC_JobPlan_design_%s.cfg' % ('q' if q else 't'), workers=8, timeout=1500)
+    _mc_design(c, 'TagPipeline', 'MC_TagPipeline_design_%s.cfg' % ('q' if q else 't'), workers=4 if q else 8, timeout=1500)
     for name, cfg in NEG:
         c.mc_negative('JobPlan', cfg, expect_inv=['Inv_C05_Cover'], workers=4)
+    for name, cfg, inv in MUT:
+        c.mc_negative('JobPlan', cfg, expect_inv=[inv], workers=4)
     # spec -> code: the layouts of the bounded model
     rp = vlib.scenarios('JobPlan', 'MC_JobPlan_gen_plan.cfg')
     rr = vlib.scenarios('JobPlan', 'MC_JobPlan_gen_run.cfg')
     rng = random.Random(c.seed)
+
+    def um(s):
+        return any(x.get('um') for x in s['contigs'])
+    plans = rp['scenarios']
+    if q:   # all layouts of <= 3 contigs, all 4-contig layouts of mapped reads, a sample of the 4-contig ones with unmapped-only contigs
+        rest4 = [s for s in plans if len(s['contigs']) == 4 and um(s)]
+        rng.shuffle(rest4)
+        plans = [s for s in plans if len(s['contigs']) < 4 or not um(s)] + rest4[:150]
     pool = rr['scenarios']
-    chosen = [s for s in pool if _interesting(s)]
-    rest = [s for s in pool if not _interesting(s)]
+    chosen = [s for s in pool if _interesting(s) and not um(s)]
+    rest = [s for s in pool if not (_interesting(s) and not um(s))]
     rng.shuffle(rest)
-    chosen += rest[:6 if q else len(rest)]
+    chosen += rest[:8 if q else 700]
     scn_path = os.path.join(vlib.scratch(), 'c05_scenarios.json')
     with open(scn_path, 'w') as f:
-        json.dump({'plan': rp['scenarios'], 'run': chosen}, f)
+        json.dump({'plan': plans, 'run': chosen}, f)
     trace = os.path.join(vlib.scratch(), 'jobplan.ndjson')
     vlib.run_driver('drive_jobplan.py', [trace, tier, c.seed, scn_path], timeout=3000)
     events = vlib.read_ndjson(trace)
